@@ -4,7 +4,7 @@ import re
 
 def classify(w):
     th, om, sg = w["layout"]
-    edit = w["edit"]
+    edit = w["edit"].split(" ; ")[-1]  # the findings are about the last edit of a sequence
     kind = edit.split("(")[0]
     what = w["what"].split("] ", 1)[-1]
     ttxt = " ".join(th).upper()
